@@ -65,6 +65,17 @@ def index (l : List Char) (i : Int) : Except PyExc Char :=
     | some c => pure c
     | none => throw .indexError
 
+/-- `for x in xs: body` where the body only tests and returns / raises; `some r` = the body executed `return r` -/
+def forEach {α β : Type} (xs : List α) (f : α → Except PyExc (Option β)) : Except PyExc (Option β) :=
+  match xs with
+  | [] => pure none
+  | x :: rest => do
+    match ← f x with
+    | some r => pure (some r)
+    | none => forEach rest f
+
+#guard (forEach [1, 2, 3] (fun x => pure (if x == 2 then some x else none)) : Except PyExc (Option Nat)).toOption == some (some 2)
+
 /-- `re.compile("[cls]").search(l)`: `.start()` of the match = index of the first character of the class, `none` = no match -/
 def searchClass (cls l : List Char) : Option Int :=
   (l.findIdx? fun c => cls.contains c).map fun i => (i : Int)
